@@ -441,6 +441,26 @@ def run(ck):
 
     marked_rules(ck)
 
+    # ---- lookups descend only through make_owned: that call migrates a child list owned by an OLDER generation into the current
+    # one (fresh nodes, fresh read-only entries). Following an already owned list directly hands out the older generation's
+    # entry handles (a write through them lands in the checkpointed generation) and, one level further down, rewrites the older
+    # node's child table with indices that a rollback truncates
+    nlook = 0
+    for n in ("get_entry", "iter"):
+        f = getfn(ck, "sc", E, LL + "MutableTrie::" + n)
+        if not f:
+            continue
+        reads = [(bi, t) for (bi, t) in f.calls(r"slice::<impl \[T\]>::binary_search_by$|ops::Index::index$") if "KeyIndexPair" in " ".join([t["f"].get("self") or ""] + (t["f"].get("gargs") or []))]
+        via = [(bi, t) for (bi, t) in reads if has_call_origin(f.origins(t["args"][0], deep=True), r"low_level::make_owned$")]
+        direct = f.calls(r"ChildrenCow::<.*>::get_owned(_mut)?$|ChildrenCow::get_owned(_mut)?$")
+        nlook += len(reads)
+        okd = len(reads) >= 1 and len(via) == len(reads) and not direct
+        ck.ob("DEFUSE", f.path, "descends-only-through-make_owned", okd,
+              "every child list the lookup follows comes out of make_owned (migrated to the current generation)" if okd else
+              "the lookup follows a child list without make_owned (%d of %d child searches, %d direct get_owned): nodes and entries of an older generation are handed out in place" % (len(reads) - len(via), len(reads), len(direct)),
+              f.loc(direct[0][0]) if direct else f.loc())
+    ck.floor("DEFUSE", "child searches in get_entry/iter", nlook, 2)
+
     # ---- the shared trie is cut back to the caller's own generation before anything else is done with it: a generation that
     # was abandoned (rolled back) stays on the shared stack until the next `normalize(root)`, so every owner-side use of the
     # locked trie - in particular starting the next generation - must come after it
